@@ -55,8 +55,37 @@ fn parse_shape(d: &dyn Dialect, sql: &str) -> Option<String> {
     }
 }
 
+fn stmts_shape(v: &[Statement]) -> Option<String> {
+    if v.len() != 1 { return None; }
+    match &v[0] {
+        Statement::Query(q) => match &*q.body {
+            SetExpr::Select(s) if s.projection.len() == 1 => match &s.projection[0] {
+                sqlparser::ast::SelectItem::UnnamedExpr(e) => shape(e),
+                _ => None,
+            },
+            _ => None,
+        },
+        _ => None,
+    }
+}
+
+/// the same text on a parser OBJECT that has already been used (a failed or a successful parse,
+/// then `try_with_sql`): grouping must not depend on what the object saw before
+fn parse_shape_reused(d: &dyn Dialect, prev: &str, sql: &str) -> Option<String> {
+    match guard(|| {
+        let p = mk_parser(d, Opts::DEFAULT);
+        let mut p = p.try_with_sql(prev).ok()?;
+        let _ = p.parse_statements();
+        let mut p = p.try_with_sql(sql).ok()?;
+        p.parse_statements().ok()
+    }) {
+        G::Val(Some(v)) => stmts_shape(&v),
+        _ => None,
+    }
+}
+
 pub fn oracle(seed: u64, tier: &str) -> Vec<Report> {
-    let mut r = Report::new("C04", "oracle.infix-climb", "for each dialect, every operator spelling that parses `a OP b` to a plain binary node: ALL ordered pairs and (quick: a seeded third; thorough: all) triples `a o1 b o2 c o3 d` — the real tree's bracketing must equal classic left-associative precedence climbing over the binding powers the dialect publishes through get_next_precedence; plus set-operation chains over UNION/EXCEPT/INTERSECT (levels 10/10/20). non-trivial = distinct (dialect, operator tuple) with at least two different levels");
+    let mut r = Report::new("C04", "oracle.infix-climb", "for each dialect, every operator spelling that parses `a OP b` to a plain binary node: ALL ordered pairs and (quick: a seeded third; thorough: all) triples `a o1 b o2 c o3 d` — the real tree's bracketing must equal classic left-associative precedence climbing over the binding powers the dialect publishes through get_next_precedence, on a fresh parser and on a parser object re-targeted with try_with_sql after an earlier (failed or successful) parse; plus set-operation chains over UNION/EXCEPT/INTERSECT (levels 10/10/20). non-trivial = distinct (dialect, operator tuple) with at least two different levels");
     let ds = all_dialects();
     let mut rng = Rng(seed ^ 0xC04);
     let mut distinct = 0u64;
@@ -77,7 +106,15 @@ pub fn oracle(seed: u64, tier: &str) -> Vec<Report> {
             r.evaluations += 1;
             let want = climb(&atoms[..sel.len() + 1], &precs);
             match parse_shape(d, &sql) {
-                Some(got) => { if got != want { r.fail(format!("grouping/{}", sel.iter().map(|x| x.0).collect::<Vec<_>>().join(" ")), dn, Opts::DEFAULT, &sql, format!("got {got}, precedence climbing over {precs:?} gives {want}")); } }
+                Some(got) => {
+                    if got != want { r.fail(format!("grouping/{}", sel.iter().map(|x| x.0).collect::<Vec<_>>().join(" ")), dn, Opts::DEFAULT, &sql, format!("got {got}, precedence climbing over {precs:?} gives {want}")); }
+                    // and on a used parser object (rotating history)
+                    let prevs = ["SELECT a *", "SELECT a +", "SELECT a AND", "SELECT a OR b AND", "SELECT 1", "SELECT a ||"];
+                    let prev = prevs[(r.evaluations % prevs.len() as u64) as usize];
+                    if let Some(got2) = parse_shape_reused(d, prev, &sql) {
+                        if got2 != want { r.fail(format!("grouping-reused/{}", sel.iter().map(|x| x.0).collect::<Vec<_>>().join(" ")), dn, Opts::DEFAULT, &sql, format!("after `{prev}` on the same parser object: got {got2}, precedence climbing over {precs:?} gives {want}")); }
+                    }
+                }
                 None => r.count("not-a-plain-binary-tree"),
             }
         };
